@@ -461,18 +461,22 @@ PROPS = {
              "typed API used to recurse on the cause chain (finding F8, fixed by 5c75dfb) and is probed with chains of "
              "1000 and 200000 causes on an 8 MiB stack",
              oracle="model"),
-    "C10": P(["C10_layout_or_version_bump", "C10_other_version_rejected", "C10_written_version"],
+    "C10": P(["C10_layout_or_version_bump", "C10_other_version_rejected", "C10_written_version", "C10_current_files_same_answers", "C10_pinned_files_parse", "C10_pinned_files_same_answers", "C10_writers_differ_in_class_rows_only", "C10_domain_needed"],
              "Theorems: the record layouts, sentinel defaults and magic read from the current source equal the pinned "
              "release's unless the version constant differs (guard re-proved against the regenerated Extracted.v on "
-             "every run); any buffer with another version word is rejected with the version error. The harness links "
-             "the vendored pinned release: files written by each release are answered by both readers, and every "
-             "answer must be WrongVersion or identical.",
+             "every run); any buffer with another version word is rejected with the version error; with the pinned "
+             "release's writer (F1 offsets) and reader (F5 unchecked line arithmetic) modelled in Pinned.v, every file "
+             "written by either writer from an in-domain mapping parses and is answered by the pinned reader exactly as "
+             "by the current reader for every frame query and every line, the two writers' files differ only in the "
+             "class rows, and outside the domain the releases do differ (witness). The harness links the vendored pinned "
+             "release: files written by each release are answered by both readers, and every answer must be "
+             "WrongVersion or identical.",
              "representable grammar mappings and corpus files x {pinned 5.5.0, current tree} writers x both readers x "
              "class / method / line / params / text-trace / signature queries over the file's universe; non-trivial = "
              "query answered with a non-empty result. Typed remapping is excluded: the pinned release has defect F3 "
              "(fixed), which changes typed answers independently of the file bytes",
-             "guard and version clauses proved; reader equality across releases is established by the cross-release run "
-             "(the pinned reader is not modelled separately)",
+             "guard, version and reader-equality clauses proved for the models of both releases; that the vendored pinned "
+             "release behaves as its model is established by the cross-release run",
              modes=["run-xver"], model=False,
              trusted_extra=["pinned/proguard-5.5.0: vendored sources of the pinned snapshot f3fcb84 (package renamed)"]),
     "C14": P(["C14_length_implied_by_header", "C14_function_of_bytes"],
